@@ -35,6 +35,35 @@ let () =
             let rest = String.sub t (i + 1) (n - i - 1) in
             if c = 'w' then OpWrite (k, bytes_of_hex rest) else OpBegin (k, z_of_int (int_of_string rest)) in
         print_endline (string_of_bytes (api_queue (z_of_int (int_of_string cap)) (List.map parse ops)))
+      | ("session" | "session_nofence") as m :: ops ->
+        let n_of s = n_of_int (int_of_string s) in
+        let hexs s = if s = "" then [] else bytes_of_hex s in
+        let parse_act a =
+          if a.[0] = 'c' then WClose (n_of (String.sub a 1 (String.length a - 1)))
+          else (match String.split_on_char '.' (String.sub a 1 (String.length a - 1)) with
+                | [w; k; h] -> WAdd (n_of w, nat_of_int (int_of_string k), hexs h)
+                | _ -> failwith "act") in
+        let parse_acts s = if s = "" then [] else List.map parse_act (String.split_on_char ',' s) in
+        let parse_plan p = match String.split_on_char '|' p with
+          | [k; a; b] -> { pl_before = parse_acts a; pl_between = parse_acts b; pl_k = nat_of_int (int_of_string k) }
+          | _ -> failwith "plan" in
+        let parse t =
+          match String.split_on_char ':' t with
+          | ["nw"; w; cap; id; name] -> SNewWriter (n_of w, z_of_int (int_of_string cap), n_of id, hexs name)
+          | ["id"; w; id] -> SSetId (n_of w, n_of id)
+          | ["nm"; w; name] -> SSetName (n_of w, hexs name)
+          | ["ev"; w; k; p] -> SAddEvent (n_of w, nat_of_int (int_of_string k), hexs p)
+          | ["lg"; w; k; site; sev; clock; args] ->
+              SLog (n_of w, nat_of_int (int_of_string k),
+                    { lg_site = n_of site; lg_sev = n_of sev; lg_src = site_source (n_of site) (n_of sev); lg_clock = n_of clock; lg_args = hexs args })
+          | ["cl"; w] -> SClose (n_of w)
+          | ["as"; n; sev] -> SAddSource (site_source (n_of n) (n_of sev))
+          | ["cs"; c; f; ns; tz; name] -> SSetClockSync { cs_clock = n_of c; cs_freq = n_of f; cs_ns = n_of ns; cs_tz = n_of tz; cs_tzname = hexs name }
+          | ["ms"; sev] -> SSetMinSev (n_of sev)
+          | ["co"; plans] -> SConsume (if plans = "" then [] else List.map parse_plan (String.split_on_char ';' plans))
+          | ["rc"] -> SReconsume
+          | _ -> failwith ("op " ^ t) in
+        print_endline (string_of_bytes (api_session (m = "session") (List.map parse ops)))
       | mode :: args ->
         let r = api (bytes_of_string mode) (List.map bytes_of_hex args) in
         print_endline (string_of_bytes r)
